@@ -81,6 +81,8 @@ def run_seq(acc, rnd, nops, cid):
 
     def rval():
         r = rnd.random()
+        if r < 0.06:
+            return ""          # a zero-length value is a value: the tag is there, and it is a plain tag
         if r < 0.5:
             return "".join(rnd.choice("abcXYZ019 |=>[]#.-") for _ in range(rnd.randrange(1, 8)))
         if r < 0.65:
